@@ -169,6 +169,26 @@ Theorem C12_full_col_range_exempt :
 Proof. exact full_col_range_exempt. Qed.
 Print Assumptions C12_full_col_range_exempt.
 
+(* F27 repaired (commit 3e01966): insert_rows / insert_columns validate their index exactly as
+   the deletions do — every accepted insertion has a positive count and 1 <= index <= last *)
+Theorem C12_accepted_insert_index_on_grid :
+  forall last r delta,
+  0 <= delta -> edit_valid last r delta = true -> 0 < delta /\ 1 <= r <= last.
+Proof. exact accepted_insert_on_grid. Qed.
+Print Assumptions C12_accepted_insert_index_on_grid.
+
+Theorem C12_insert_accepted_iff_index_on_grid :
+  forall last r k, 0 < k -> (edit_valid last r k = true <-> 1 <= r <= last).
+Proof. exact edit_valid_insert. Qed.
+Print Assumptions C12_insert_accepted_iff_index_on_grid.
+
+(* the former witnesses insert_rows(0,0,2), insert_rows(0,-3,1), insert_columns(0,0,1) are refused *)
+Example C12_insert_below_one_refused :
+  edit_valid LAST_ROW 0 2 = false /\ edit_valid LAST_ROW (-3) 1 = false /\
+  edit_valid LAST_COLUMN 0 1 = false /\ edit_valid LAST_ROW (LAST_ROW + 1) 1 = false /\
+  edit_valid LAST_ROW 1 1 = true /\ edit_valid LAST_ROW LAST_ROW 7 = true.
+Proof. exact insert_below_one_refused. Qed.
+
 (* non-vacuity: "=B$5" in C7, two rows inserted at row 3 -> "=B$7" in C9 *)
 Example C12_nonvacuous :
   apply_disp_full (DRow 0 3 2) true (7, 3)
